@@ -144,14 +144,24 @@ class C10(PropertyCheck):
             "plus pairs/triples of rows and 3-label rows; ref: every list of <=2 (thorough <=3) tokens with "
             "boundaries in -1..3 (quick -1..2 for two tokens), in_lens 0..R/omitted, other_lens 0..5/omitted; tokens: "
             "every such list against every slice in -1..4 squared as one batch, partial x retain x ref_lens. "
-            "non-trivial: some configuration returns >= 2 windows, or keeps >= 1 token and drops >= 1; distinct "
-            "by the case json")
+            "every slice/tokens case draws its entry point (functional / module, positional / keywords with "
+            "documented defaults omitted) and the memory layout of its arguments (contiguous / stride-0 expanded / "
+            "strided view). dir (both tiers): chunk-torch-spect-data-dir --num-workers 0 on small directories (tiled, "
+            "random, mixed token segmentations); every subset of {--partial-tokens, --retain-token-boundaries, "
+            "--quiet} x policy x {valid-only, --pad-mode} (3 rounds, window type, lobe 0..3, constant/replicate "
+            "padding and pad constant drawn), every non-default file-layout option (--file-prefix, --file-suffix, "
+            "the three sub-directory names, default --format-utt, no ali/, no ref/) alone and all together; "
+            "thorough adds 160 random runs. "
+            "non-trivial: some configuration returns >= 2 windows, or keeps >= 1 token and drops >= 1, or a "
+            "directory run writes >= 2 chunks; distinct by the case json")
     assumptions = [
         "model is the model of the repaired tree (fixes/C10-*.diff); on the pinned tree the four repaired "
         "places raise or return an out-of-sequence window and the check reports them",
         "only in-domain lengths are specified: 0 <= in_lens <= T; other_lens any integer; boundaries any integer",
         "torch primitives (arange, nonzero, boolean-mask indexing, gather, masked_scatter_) at their documented meaning",
         "policy/window_type/lobe_size argument validation is checked only as 'RuntimeError/ValueError is raised'",
+        "directory level: features/alignments of a chunk are compared with the source frames restricted to the "
+        "window under constant / replicate padding (reflect is C09's); multi-worker runs are not exercised (C17)",
     ]
     exhaustive = {"quick": True, "thorough": True}
     quick_budget_s = 200
@@ -611,10 +621,37 @@ class C10(PropertyCheck):
             t.append(f"tokens:R={len(case['refs'][0]) if case['refs'] else 0}")
         return t
 
+    def has_unknown_failure(self, case):
+        """Does the property fail on `case` in a way that is NOT the listed known finding?"""
+        from common import framework, leantools
+        try:
+            r = framework.evaluate(self, [case], leantools.obligations(self.pid)["driver"])[0]
+        except Exception:
+            return False
+        return (not r.get("internal")) and any(f.signature is None for f in r["fail"])
+
     def shrink(self, case):
+        # The framework keeps a smaller candidate when it fails in ANY way; most token / directory inputs
+        # also show the known +start finding, so a fresh violation would be shrunk into an input that only
+        # shows the known one. Candidates of a case with an unlisted failure must keep an unlisted failure.
+        if case["kind"] in ("dir", "tokens") and self.has_unknown_failure(case):
+            for c in self.shrink_raw(case):
+                if self.has_unknown_failure(c):
+                    yield c
+            return
+        yield from self.shrink_raw(case)
+
+    def shrink_form(self, case):
+        if case.get("layout", "contiguous") != "contiguous":
+            yield dict(case, layout="contiguous")
+        if case.get("via", "functional") != "functional":
+            yield dict(case, via="functional")
+
+    def shrink_raw(self, case):
         if case["kind"] == "dir":
             yield from c10_dir.shrink(case)
         elif case["kind"] == "slice":
+            yield from self.shrink_form(case)
             for k in ("lobes", "wts", "valids", "lens_opts"):
                 if len(case[k]) > 1:
                     for v in case[k]:
@@ -645,6 +682,7 @@ class C10(PropertyCheck):
                     c["lobes"] = [l - 1]
                     yield c
         elif case["kind"] == "tokens":
+            yield from self.shrink_form(case)
             for k in ("partials", "retains", "slices_opts", "ref_lens_opts"):
                 if len(case[k]) > 1:
                     for v in case[k]:
